@@ -796,7 +796,6 @@ func parseOut(s string) ob {
 // known (recorded) signatures are reported only when nothing else is wrong in the run
 var knownSigs = map[string]bool{
 	"C37:timeout-count-decreases-at-cap":       true,
-	"C37:setphase-lost-update":                 true,
 }
 
 // oracle: C37 itself on the answers of the real code, with its own reference for the share set.
@@ -832,7 +831,7 @@ func oracle(ops, outs []string) *corr.Violation {
 			lost := stressLost[strings.Join(ops, "\n")]
 			stressMu.Unlock()
 			if lost > 0 {
-				mk("setphase-lost-update", fmt.Sprintf("op %d: %d concurrent runs (of %s per execution) of SetPhase(Verify) ‖ AddNotarizedBlock ended with phase < Share: the unlocked load-then-store of setPhase overwrote Share with Verify", i, lost, w[1]))
+				mk("setphase-lost-update", fmt.Sprintf("op %d: %d concurrent runs (of %s per execution) of SetPhase(Verify) ‖ AddNotarizedBlock ended with phase < Share: a concurrent setPhase overwrote Share with Verify (setPhase must raise the phase with a compare-and-swap, repo commit 8870ba0)", i, lost, w[1]))
 			}
 			continue
 		}
@@ -1075,7 +1074,7 @@ func main() {
 			{"new 5 1 0", "settimeout 5", "inctimeout 77 0", "gettimeout", "dump"},
 			{"new 0 0 0", "setfinalizing", "resetfinifnot", "finstate", "isfinalized", "dump"},
 			{"new 9 0 1", "addshare 1 2", "addshare 1 2", "addshare 2 2", "addshare 3 2", "restart", "getshares", "dump"},
-			// concurrent negation witness (lost update of the unlocked setPhase) searched on the real code
+			// regression guard for repo commit 8870ba0 (setPhase is a CAS loop): the old lost update searched on the real code
 			{"new 5 0 0", stress},
 		},
 	})
